@@ -33,6 +33,55 @@ def scenarios(rng: random.Random, n: int, thorough: bool):
     return scs
 
 
+def adversarial(rng: random.Random, n: int, start_tid: int):
+    """Requests whose range is placed, from a dry run of the same shot, so that one integration step jumps from before
+    the last record distance to beyond the loop bound range + min_step (possible whenever the ground advance of a step
+    exceeds min_step, i.e. with a tail-wind component AT THE END of the range, whatever the earlier segments are)."""
+    from pbv import integ
+    import py_ballisticcalc as m
+    scs = []
+    for i in range(n):
+        p = shots.gen_shot(rng, winds=0, look=0.0)
+        p["mv_fps"] = rng.choice([420.0, 900.0, 2600.0])
+        tail = [rng.choice([15.0, 44.0, 120.0]), rng.choice([0.0, 10.0, 350.0]), 1e8]
+        kind = i % 4
+        if kind == 0:
+            p["winds"] = [tail]
+        elif kind == 1:        # head wind first, tail wind later
+            p["winds"] = [[rng.choice([15.0, 44.0]), 180.0, rng.choice([60.0, 200.0])], tail]
+        elif kind == 2:        # cross wind from the right first, then tail
+            p["winds"] = [[15.0, 270.0, rng.choice([60.0, 200.0])], tail]
+        else:                  # calm first, then tail; given in reverse order
+            p["winds"] = [tail, [0.0, 0.0, 150.0]]
+        ms = rng.choice([1.0, 2.0])
+        cfg = {"max_calc_step_size_feet": ms}
+        core.reset_world()
+        shot = shots.build_shot(p)
+        calc = shots.build_calc(cfg)
+        rec = integ.Recorder().install()
+        try:
+            calc.fire(shot, m.Unit.Foot(900.0), m.Unit.Foot(450.0))
+        except m.RangeError:
+            pass
+        finally:
+            rec.remove()
+        its = rec.calls[-1]["iters"]
+        min_step = ms / 2.0
+        cands = [(a["pre_r"].x, b["pre_r"].x) for a, b in zip(its, its[1:]) if a["pre_r"].x > 300.0 and b["pre_r"].x - a["pre_r"].x > min_step * 1.02]
+        if not cands:
+            continue
+        x0, x1 = cands[rng.randrange(len(cands))]
+        nn = rng.choice([3, 10])
+        # x0 < R and x1 > R + min_step, with a step that divides R EXACTLY in floats (step on a 2^-20 grid, R = nn * step)
+        step = round((x0 + (x1 - min_step)) / 2.0 / nn * 2 ** 20) / 2 ** 20
+        R = step * nn
+        if not (x0 < R and x1 > R + min_step):
+            continue
+        scs.append({"shot": p, "cfg": cfg, "tid": start_tid + i, "kind": "adversarial_range", "range_ft": R, "unit": "Foot",
+                    "step_ft": step if i % 5 else None, "extra": False})
+    return scs
+
+
 def run(chk: core.Check, replay=None) -> None:
     core.use_repo()
     thorough = chk.tier == "thorough"
@@ -41,6 +90,7 @@ def run(chk: core.Check, replay=None) -> None:
     loopsuite.object_replay(chk, "C03", behs)
     rng = random.Random(chk.seed * 7 + 3)
     scs = scenarios(rng, 400 if thorough else 36, thorough)
+    scs += adversarial(rng, 120 if thorough else 12, len(scs) + 1)
     outs = scen.run_batch(scs)
     for o in outs:
         sc, summ = o["sc"], o.get("summ", {})
@@ -57,6 +107,8 @@ def run(chk: core.Check, replay=None) -> None:
                 chk.stratum("dividing_step")
             if sc.get("time_step"):
                 chk.stratum("time_step")
+            if sc["kind"] == "adversarial_range":
+                chk.stratum("adversarial_range_" + str(len(sc["shot"]["winds"])) + "_segments")
         elif o["outcome"] not in ("RangeError",):
             if o["outcome"] == "timeout":
                 continue    # C04's business
@@ -65,7 +117,7 @@ def run(chk: core.Check, replay=None) -> None:
         chk.sample({"scenario": o["sc"], "outcome": o["outcome"], "rows": len(o["rows"]), "projected_lines": o["summ"].get("lines"),
                     "first_lines": o["lines"][:3]})
     chk.sample({"tlc_behaviour": {k: v for k, v in behs[0].items() if k != "consts"}})
-    chk.require_strata(["done", "tail_wind", "default_step", "non_dividing_step", "dividing_step", "time_step",
+    chk.require_strata(["adversarial_range_1_segments", "adversarial_range_2_segments", "done", "tail_wind", "default_step", "non_dividing_step", "dividing_step", "time_step",
                         "obj_flag_R", "obj_interpolated_row"])
     chk.exhaustive = False
     chk.rule.append("design: Integrator.tla exhaustively on the listed constant sets; spec->code: distinct TLC-simulated controller "
